@@ -514,6 +514,34 @@ def run(ctx):
 
     check_fresh_namespace(ctx, "R7.8")
 
+    # ------------------------------------------------------------------ R7.9 a generator variable lives as long as its generator
+    ctx.rule("R7.9", "the interpreted engine refuses a generator variable whose name is already bound in its namespace; it therefore unbinds the variable when "
+                     "the generator ends (a `finally` around the loop that binds it), or `any(x == 1 for x in r.a) and any(x == 2 for x in r.b)` - plain Python - "
+                     "is refused because the first generator left `x` behind")
+    rcm9 = prog.cls("flow.record.selector.RecordContextMatcher")
+    binds9 = []
+    for fn9 in [f for f in ast.walk(rcm9) if isinstance(f, ast.FunctionDef)]:
+        for n9 in walk_no_nested(fn9):
+            if isinstance(n9, ast.Assign) and any(isinstance(t, ast.Subscript) and norm(t.value) == "self.data" and not isinstance(t.slice, ast.Constant) for t in n9.targets):
+                binds9.append((fn9, n9))
+    ctx.floor("R7.9", "bindings of generator variables", len(binds9), 1)
+    for fn9, b9 in binds9:
+        key9 = norm(next(t for t in b9.targets if isinstance(t, ast.Subscript)).slice)
+        tr = getattr(b9, "_parent", None)
+        cleaned = False
+        while tr is not None and tr is not fn9:
+            if isinstance(tr, ast.Try) and any(b9 is x for s0 in tr.body for x in ast.walk(s0)):
+                for f9 in tr.finalbody:
+                    for x in ast.walk(f9):
+                        if isinstance(x, ast.Call) and norm(x.func) == "self.data.pop" and x.args and norm(x.args[0]) == key9:
+                            cleaned = True
+                        if isinstance(x, ast.Delete) and any(isinstance(t, ast.Subscript) and norm(t.value) == "self.data" and norm(t.slice) == key9 for t in x.targets):
+                            cleaned = True
+            tr = getattr(tr, "_parent", None)
+        ctx.check(cleaned, "R7.9", f"{fn9.name}:generator-variable-unbound", f"`{norm(b9)[:50]}` binds the generator variable in the namespace and nothing removes it when the generator "
+                  "ends: a later generator expression of the same selector that uses the same variable name is refused (`overwrites existing variable`) where Python evaluates it", b9,
+                  f"try: <loop> finally: self.data.pop({key9}, None)", key="R7.9:generator-variable-left-bound")
+
     # ------------------------------------------------------------------ R7.6 namespace agreement (informational + wiring)
     ctx.rule("R7.6", "the compiled engine evaluates the expression text unchanged with Python's eval in a namespace holding "
                      "the helper functions, `net`, `r` (wrapped record) and `Type`; differences to the interpreted namespace are listed")
